@@ -440,6 +440,26 @@ def cli_compare_many(ck):
         shutil.rmtree(d, ignore_errors=True)
 
 
+def printed_wrong(txt, want):
+    """None, or what is wrong with the printed report: each heading is present iff there is such a change, and the table
+    under it names exactly the services concerned"""
+    heads = {"new": "New services", "deleted": "Deleted services", "renamed": "Renamed services"}
+    marks = sorted((txt.find(h), k) for k, h in heads.items() if h in txt) + [(len(txt), None)]
+    secs = {k: txt[a:marks[j + 1][0]] for j, (a, k) in enumerate(marks[:-1])}
+    end = txt.find("Services with parameter changes")
+    for k in heads:
+        names = [x[0] if isinstance(x, list) else x for x in want[k]]
+        if bool(names) != (k in secs):
+            return f"{'lacks' if names else 'has'} the heading '{heads[k]}' although the comparison found {names}"
+        body = secs.get(k, "")
+        if end >= 0 and end > txt.find(heads[k]) >= 0:
+            body = body.split("Services with parameter changes")[0]
+        for n in names:
+            if n not in body:
+                return f"does not name the service {n} under '{heads[k]}'"
+    return None
+
+
 def run_compare(dl_new, dl_old):
     from odxtools.cli.compare import Comparison
     cmp_ = Comparison()
@@ -452,7 +472,14 @@ def run_compare(dl_new, dl_old):
         for x in info:
             if isinstance(x, dict) and "Property" in x:
                 props.extend(x["Property"])
-    return dict(new=[s.short_name for s in r["new_services"]], deleted=[s.short_name for s in r["deleted_services"]],
+    import contextlib
+    os.environ["COLUMNS"] = "250"
+    buf = io.StringIO()
+    cmp_.param_detailed = False
+    with contextlib.redirect_stdout(buf):
+        _, e_pr, _ = cc.guarded(lambda: cmp_.print_dl_changes(r), timeout=20)
+    return dict(printed=buf.getvalue(), print_error=None if e_pr is None else f"{type(e_pr).__name__}: {e_pr}",
+                new=[s.short_name for s in r["new_services"]], deleted=[s.short_name for s in r["deleted_services"]],
                 renamed=[[a.short_name, b] for a, b in zip(r["changed_name_of_service"][0], r["changed_name_of_service"][1])],
                 changed=[s.short_name for s in ch[0]], props=props, texts=list(ch[1]))
 
@@ -518,6 +545,12 @@ def main(argv=None):
                 if not prefix_edit and not twin_delete:
                     ck.violation(f"edit '{label}' of {exp} is reported as {got}", rep)
                     continue
+            elif label in ("add", "delete", "rename", "delete+rename") and got == want and (r["print_error"] or printed_wrong(r["printed"], want)):
+                # what the tool prints for the comparison names the services under the right headings
+                ck.violation(f"edit '{label}': the report printed by the compare tool " +
+                             (f"raised {r['print_error']}" if r["print_error"] else printed_wrong(r["printed"], want)),
+                             dict(rep, printed=r["printed"][-1500:]))
+                continue
             elif label.startswith("change-") and exp["prop"] not in r["props"]:
                 ck.violation(f"edit '{label}' of parameter {exp['param']}: the changed property '{exp['prop']}' is not listed "
                              f"(listed: {r['props']})", rep)
